@@ -175,8 +175,8 @@ prop('C02', 'proof',
      'fixed_multiply_scalar<T> is verified exact-or-NaN for all 8 integral types in both operand orders with the '
      'scalar taken as a mathematical integer; operator* and operator*= are verified with the kernels replaced by '
      'their contracts. Multiplier obligations are discharged by kissat/cadical.',
-     assumptions=['the non-GNU fallback branch of detail::checked_multiply (#else of __GNUC__/__clang__) is not compiled '
-                  'in any configuration of C08 and is not under contract (differentially tested natively once, see DESIGN.md)'])
+     assumptions=['the non-GNU fall-back branch of detail::checked_multiply is verified through the guarded hook '
+                  'FIXEDMATH_VERIF_PORTABLE_MULTIPLY (configuration `portable`, INT back end); it is not compiled in any configuration of C08'])
 MULI = '_ZN9fixedmath6detail15fixed_multiplyiENS_7fixed_tES1_'
 K_MULI = (MULI, 'pre_c01', 'post_mul')
 MULBE = ('kissat', 'cadical')
@@ -191,6 +191,12 @@ for t, ct in ITYPES:
     U('C02', 'c02.op.f_%s' % ct, '_ZN9fixedmathmlINS_7fixed_tE%svEEDaT_T0_' % t, ks[1], ks[2], replace=[ks], cxx='($1 * $2)', backends=MULBE, timeout=300)
     U('C02', 'c02.op.%s_f' % ct, '_ZN9fixedmathmlI%sNS_7fixed_tEvEEDaT_T0_' % t, kr[1], kr[2], replace=[ks], cxx='($1 * $2)', backends=MULBE, timeout=300)
     U('C02', 'c02.assign.%s' % ct, '_ZN9fixedmathmLI%svEERNS_7fixed_tES2_T_' % t, ks[1], ks[2], replace=[ks], cxx='($1 *= $2)', backends=MULBE, timeout=300)
+
+# portable (non-GNU) branch of checked_multiply, compiled through the verification hook
+U('C02', 'c02.mul.kernel.portable', MULI, 'pre_c01', 'post_mul', cfg='portable', cxx='fixedmath::detail::fixed_multiplyi($1,$2)', engine='int', timeout=300)
+for t, ct in ITYPES:
+    U('C02', 'c02.muls.portable.%s' % ct, '_ZN9fixedmath6detail21fixed_multiply_scalarI%svEENS_7fixed_tES2_T_' % t, 'pre_muls_' + t, 'post_muls_' + t, cfg='portable',
+      cxx='fixedmath::detail::fixed_multiply_scalar($1,$2)', engine='int', timeout=300)
 
 # ----------------------------------------------------------------------------- C03
 prop('C03', 'proof',
